@@ -190,6 +190,115 @@ pub mod unit_stats {
         assert((a * a * vp) / (a * a * w) == vp / w) by(nonlinear_arith) requires a * a != 0real, w != 0real;
     }
 
+    // ---- C11 corollary: moving one chain away (real arithmetic) --------------------------------------------
+    /// sum of squares of the first k entries
+    pub open spec fn rsq(s: Seq<Fl>, k: int) -> real decreases k {
+        if k <= 0 { 0real } else { rsq(s, k - 1) + rv(s[k - 1]) * rv(s[k - 1]) }
+    }
+    /// sum (s_j - c)^2 = sum s_j^2 - 2 c sum s_j + k c^2
+    pub proof fn lemma_rssd_expand(s: Seq<Fl>, c: real, k: int)
+        requires k >= 0
+        ensures rssd(s, c, k) == rsq(s, k) - 2real * c * rsum(s, k) + (k as real) * c * c
+        decreases k
+    {
+        if k > 0 {
+            lemma_rssd_expand(s, c, k - 1);
+            let x = rv(s[k - 1]);
+            let (q, t, kr) = (rsq(s, k - 1), rsum(s, k - 1), (k - 1) as real);
+            assert((q - 2real * c * t + kr * c * c) + (x - c) * (x - c) == (q + x * x) - 2real * c * (t + x) + (kr + 1real) * c * c) by(nonlinear_arith);
+        } else {
+            assert(0real - 2real * c * 0real + 0real * c * c == 0real) by(nonlinear_arith);
+        }
+    }
+    /// t is s with entry i increased by dlt (values compared as reals)
+    pub open spec fn bumped(s: Seq<Fl>, t: Seq<Fl>, i: int, dlt: real) -> bool {
+        &&& 0 <= i < s.len() && t.len() == s.len() && rv(t[i]) == rv(s[i]) + dlt
+        &&& forall |k: int| 0 <= k < s.len() && k != i ==> rv(#[trigger] t[k]) == rv(s[k])
+    }
+    pub proof fn lemma_sums_bump(s: Seq<Fl>, t: Seq<Fl>, i: int, dlt: real, k: int)
+        requires bumped(s, t, i, dlt), 0 <= k <= s.len()
+        ensures
+            k <= i ==> rsum(t, k) == rsum(s, k) && rsq(t, k) == rsq(s, k),
+            k > i ==> rsum(t, k) == rsum(s, k) + dlt && rsq(t, k) == rsq(s, k) + 2real * dlt * rv(s[i]) + dlt * dlt,
+        decreases k
+    {
+        if k > 0 {
+            lemma_sums_bump(s, t, i, dlt, k - 1);
+            if k - 1 != i { assert(rv(t[k - 1]) == rv(s[k - 1])); }
+            else {
+                let x = rv(s[i]);
+                assert((x + dlt) * (x + dlt) == x * x + 2real * dlt * x + dlt * dlt) by(nonlinear_arith);
+            }
+        }
+    }
+    /// g is h with every draw of half-chain i moved by dlt (every half-chain has n draws)
+    pub open spec fn chain_moved(h: Seq<Seq<Fl>>, g: Seq<Seq<Fl>>, n: int, i: int, dlt: real) -> bool {
+        &&& 0 <= i < h.len() && g.len() == h.len()
+        &&& forall |m: int| 0 <= m < h.len() ==> (#[trigger] h[m]).len() == n && g[m].len() == n
+        &&& forall |m: int, t: int| 0 <= m < h.len() && 0 <= t < n ==> rv(#[trigger] g[m][t]) == rv(h[m][t]) + (if m == i { dlt } else { 0real })
+    }
+    /// Moving one of M >= 2 half-chains by dlt leaves W unchanged and changes B/n by (2 dlt (u_i - u_bar)) / (M - 1) + dlt^2 / M:
+    /// quadratic in the displacement with leading coefficient 1/M > 0, hence var+/W (and split R-hat) grows without bound as
+    /// the chain is moved away; moving it further from the grand mean (dlt (u_i - u_bar) >= 0) never decreases it
+    pub proof fn lemma_rhat_grows_as_a_chain_is_moved_away(h: Seq<Seq<Fl>>, g: Seq<Seq<Fl>>, n: int, i: int, dlt: real)
+        requires n >= 1, h.len() >= 2, chain_moved(h, g, n, i, dlt)
+        ensures
+            within_w(g, n, 0) == within_w(h, n, 0),
+            between_over_n(g) == between_over_n(h) + (2real * dlt * (rmean(h[i]) - rmean(means(h)))) / ((h.len() - 1) as real) + dlt * dlt / (h.len() as real),   // [C11.rhat_grows_quadratically_as_a_chain_is_moved_away]
+            dlt * (rmean(h[i]) - rmean(means(h))) >= 0real ==> var_plus(g, n, 0) >= var_plus(h, n, 0) + dlt * dlt / (h.len() as real),
+    {
+        broadcast use ax_val_mk;
+        let mm = h.len() as int;
+        let (nr, mr) = (n as real, mm as real);
+        // per half-chain: the mean moves with the chain, the sum of squared deviations does not change
+        assert forall |m: int| 0 <= m < mm implies rmean(#[trigger] g[m]) == rmean(h[m]) + (if m == i { dlt } else { 0real })
+            && rssd(g[m], rmean(g[m]), n) == rssd(h[m], rmean(h[m]), n) by {
+            let b = if m == i { dlt } else { 0real };
+            assert forall |t: int| 0 <= t < n implies rv(#[trigger] g[m][t]) == 1real * rv(h[m][t]) + b by {}
+            lemma_rsum_affine(h[m], g[m], 1real, b, n);
+            let sh = rsum(h[m], n);
+            assert((1real * sh + b * nr) / nr == sh / nr + b) by(nonlinear_arith) requires nr >= 1real;
+            lemma_rssd_affine(h[m], g[m], 1real, b, rmean(h[m]), n);
+            assert(1real * rmean(h[m]) + b == rmean(h[m]) + b);
+            assert(1real * 1real * rssd(h[m], rmean(h[m]), n) == rssd(h[m], rmean(h[m]), n)) by(nonlinear_arith);
+        }
+        // W
+        let (vh, vg) = (variances(h, n, 0), variances(g, n, 0));
+        assert forall |m: int| 0 <= m < mm implies rv(#[trigger] vg[m]) == 1real * rv(vh[m]) + 0real by {
+            assert(rssd(g[m], rmean(g[m]), n) == rssd(h[m], rmean(h[m]), n));
+        }
+        lemma_rsum_affine(vh, vg, 1real, 0real, mm);
+        assert(1real * rsum(vh, mm) + 0real * mr == rsum(vh, mm)) by(nonlinear_arith);
+        assert(within_w(g, n, 0) == within_w(h, n, 0));
+        // B/n through  sum (u_k - u_bar)^2 = Q - S^2 / M
+        let (uh, ug) = (means(h), means(g));
+        assert(bumped(uh, ug, i, dlt)) by {
+            assert(rmean(g[i]) == rmean(h[i]) + dlt);
+            assert forall |k: int| 0 <= k < mm && k != i implies rv(#[trigger] ug[k]) == rv(uh[k]) by { assert(rmean(g[k]) == rmean(h[k]) + 0real); }
+        }
+        lemma_sums_bump(uh, ug, i, dlt, mm);
+        let (q, su, ui) = (rsq(uh, mm), rsum(uh, mm), rv(uh[i]));
+        assert(ui == rmean(h[i]));
+        let (q2, su2) = (rsq(ug, mm), rsum(ug, mm));
+        assert(su2 == su + dlt && q2 == q + 2real * dlt * ui + dlt * dlt);
+        let (cb, cb2) = (su / mr, su2 / mr);
+        lemma_rssd_expand(uh, cb, mm);
+        lemma_rssd_expand(ug, cb2, mm);
+        let (ss, ss2) = (rssd(uh, cb, mm), rssd(ug, cb2, mm));
+        assert(ss == q - su * su / mr) by(nonlinear_arith) requires ss == q - 2real * cb * su + mr * cb * cb, cb == su / mr, mr >= 2real;
+        assert(ss2 == q2 - su2 * su2 / mr) by(nonlinear_arith) requires ss2 == q2 - 2real * cb2 * su2 + mr * cb2 * cb2, cb2 == su2 / mr, mr >= 2real;
+        assert(ss2 == ss + 2real * dlt * (ui - cb) + dlt * dlt * (mr - 1real) / mr) by(nonlinear_arith)
+            requires ss == q - su * su / mr, ss2 == q2 - su2 * su2 / mr, su2 == su + dlt, q2 == q + 2real * dlt * ui + dlt * dlt, cb == su / mr, mr >= 2real;
+        let d = (mm - 1) as real;
+        assert(d == mr - 1real);
+        assert(ss2 / d == ss / d + (2real * dlt * (ui - cb)) / d + dlt * dlt / mr) by(nonlinear_arith)
+            requires ss2 == ss + 2real * dlt * (ui - cb) + dlt * dlt * (mr - 1real) / mr, d == mr - 1real, mr >= 2real;
+        assert(between_over_n(g) == ss2 / d && between_over_n(h) == ss / d);
+        if dlt * (ui - cb) >= 0real {
+            assert((2real * dlt * (ui - cb)) / d >= 0real) by(nonlinear_arith) requires dlt * (ui - cb) >= 0real, d >= 1real;
+        }
+    }
+
     /// t is s with the entries at positions i < j exchanged (values compared as reals)
     pub open spec fn swapped(s: Seq<Fl>, t: Seq<Fl>, i: int, j: int) -> bool {
         &&& 0 <= i < j < s.len() && t.len() == s.len()
